@@ -5,6 +5,7 @@ import (
 	"time"
 
 	"github.com/aperturerobotics/util/backoff"
+	"github.com/aperturerobotics/util/verifhook"
 	cbackoff "github.com/cenkalti/backoff/v4"
 )
 
@@ -100,6 +101,7 @@ func (r *runningRoutine[K, V]) execute(
 	exitedCh chan struct{},
 	waitCh <-chan struct{},
 ) {
+	verifhook.Point("keyed.exec", r.k)
 	var err error
 	if waitCh != nil {
 		select {
@@ -117,7 +119,9 @@ func (r *runningRoutine[K, V]) execute(
 	cancel()
 	close(exitedCh)
 
+	verifhook.Point("keyed.lock", r.k)
 	r.k.mtx.Lock()
+	verifhook.Enter(r.k)
 	if r.ctx == ctx {
 		r.err = err
 		r.success = err == nil
@@ -134,10 +138,13 @@ func (r *runningRoutine[K, V]) execute(
 				dur := r.retryBo.NextBackOff()
 				if dur != backoff.Stop {
 					r.deferRetry = time.AfterFunc(dur, func() {
+						verifhook.Point("keyed.lock", r.k)
 						r.k.mtx.Lock()
+						verifhook.Enter(r.k)
 						if r.k.ctx != nil && r.k.routines[r.key] == r && r.exited {
 							r.start(r.k.ctx, r.exitedCh, true)
 						}
+						verifhook.Leave(r.k)
 						r.k.mtx.Unlock()
 					})
 				}
@@ -148,6 +155,7 @@ func (r *runningRoutine[K, V]) execute(
 			defer (r.k.exitedCbs[i])(r.key, r.routine, r.data, r.err)
 		}
 	}
+	verifhook.Leave(r.k)
 	r.k.mtx.Unlock()
 }
 
@@ -174,12 +182,15 @@ func (r *runningRoutine[K, V]) remove() {
 	}
 
 	timerCb := func() {
+		verifhook.Point("keyed.lock", r.k)
 		r.k.mtx.Lock()
+		verifhook.Enter(r.k)
 		if r.k.routines[r.key] == r && r.deferRemove != nil {
 			_ = r.deferRemove.Stop()
 			r.deferRemove = nil
 			removeNow()
 		}
+		verifhook.Leave(r.k)
 		r.k.mtx.Unlock()
 	}
 	r.deferRemove = time.AfterFunc(r.k.releaseDelay, timerCb)
